@@ -88,3 +88,84 @@ Theorem reload_unbinds_refuted : exists (ops : seq (@op nat)) (s : @bstate nat),
   bound s = true /\ bound (run 0%N 1%N PeanoNat.Nat.add PeanoNat.Nat.sub PeanoNat.Nat.mul PeanoNat.Nat.div false s ops) = false.
 Proof. exact reload_unbinds_witness. Qed.
 Print Assumptions reload_unbinds_refuted.
+
+(* ---- the executable model's own code, instantiated at ANY real field (C19/Refine.v) ---- *)
+From AgileV Require Import C19.Refine.
+
+(* one step of the list model = the Sherman–Morrison update on matrices *)
+Theorem model_step_is_sherman_morrison : forall (F : realFieldType) (n : nat) (S : seq (seq F)) (v : seq F),
+  wf n S -> size v = n ->
+  wf n (sm_step 0 1 +%R (@fsub F) *%R (@fdiv F) S v) /\
+  mx_of n (sm_step 0 1 +%R (@fsub F) *%R (@fdiv F) S v) = sm_update (mx_of n S) (cv_of n v).
+Proof. exact Refine.sm_step_refines_wf. Qed.
+Print Assumptions model_step_is_sherman_morrison.
+
+(* After ANY sequence of well-sized features the matrix computed by the model's sigma_run is the
+   inverse of the regularised Gram matrix computed by the model's gram, it is symmetric, and the
+   radicand of every arm's bonus, as computed by the model's quad, is >= 0. *)
+Theorem model_gram_inverse : forall (F : realFieldType) (n : nat) (lam : F), 0 < lam ->
+  forall vs : seq (seq F), all (fun v => size v == n) vs ->
+  let S := sigma_run 0 1 +%R (@fsub F) *%R (@fdiv F) lam n vs in
+  [/\ mx_of n (Model.gram 0 +%R *%R lam n vs) *m mx_of n S = 1%:M,
+      (mx_of n S)^T = mx_of n S
+    & forall g, size g = n -> 0 <= Model.quad 0 +%R *%R S g].
+Proof. exact Refine.model_gram_inverse. Qed.
+Print Assumptions model_gram_inverse.
+
+Theorem model_denominator_ge1 : forall (F : realFieldType) (n : nat) (lam : F), 0 < lam ->
+  forall (vs : seq (seq F)) (v : seq F), all (fun v => size v == n) vs -> size v = n ->
+  1 <= 1 + dot 0 +%R *%R (vmat 0 +%R *%R v (sigma_run 0 1 +%R (@fsub F) *%R (@fdiv F) lam n vs)) v.
+Proof. exact Refine.model_denominator_ge1. Qed.
+Print Assumptions model_denominator_ge1.
+
+(* non-vacuity: the hypotheses are satisfiable over the rationals, dimension 2, three features *)
+Example model_nonvacuous :
+  (0 < 2%:R :> rat) /\ all (fun v : seq rat => size v == 2%N) [:: [:: 1; 2%:R]; [:: 0; 1]; [:: 1; 1]].
+Proof. by []. Qed.
+
+(* ---- Mutations._reinit_bandit_grads between Linear output layers (C19/ResizeProofs.v) ---- *)
+From AgileV Require Import C19.ResizeProofs.
+
+(* size clause of the helper: for every pair of Linear output layers (w weights + bias -> w' weights + bias)
+   a square matrix of the old size becomes a square matrix of the new size *)
+Theorem resize_linear_size : forall (T : Type) (zero : T) (w w' : nat) (dval : T) (M : seq (seq T)),
+  square (w + 1) M -> square (w' + 1) (reinit_bandit_grads zero true (lin w) (lin w') dval M).
+Proof. exact @resize_linear_square. Qed.
+Print Assumptions resize_linear_size.
+
+(* what Mutations.architecture_mutate really does: it passes the ALREADY mutated layer as the old one,
+   so the helper is the identity (and the init_params hook then re-initialises) *)
+Theorem resize_same_layer_is_identity : forall (T : Type) (zero : T) (w : nat) (dval : T) (M : seq (seq T)),
+  reinit_bandit_grads zero true (lin w) (lin w) dval M = M.
+Proof. exact @reinit_same_lemma. Qed.
+Print Assumptions resize_same_layer_is_identity.
+
+(* growth by k >= 1: k zero rows/columns before the bias coordinate, dval on the k new diagonal entries *)
+Theorem resize_grow_spec : forall (T : Type) (zero : T) (w k : nat) (dval : T) (M : seq (seq T)),
+  square (w + 1) M -> (0 < k)%coq_nat ->
+  reinit_bandit_grads zero true (lin w) (lin (w + k)) dval M = grown zero w k dval M.
+Proof. exact @reinit_grow_lemma. Qed.
+Print Assumptions resize_grow_spec.
+
+(* shrinking by k >= 1: rows and columns w .. w+k-1 are deleted (a principal submatrix) *)
+Theorem resize_shrink_spec : forall (T : Type) (zero : T) (w k : nat) (dval : T) (M : seq (seq T)),
+  (0 < k)%coq_nat -> reinit_bandit_grads zero true (lin (w + k)) (lin w) dval M = shrunk w k M.
+Proof. exact @reinit_shrink_lemma. Qed.
+Print Assumptions resize_shrink_spec.
+
+(* so the guard of size_inv for a Resize between Linear layers follows from the invariant itself *)
+Theorem resize_guard_linear : forall (T : Type) (zero one : T) (div : T -> T -> T) (s : @bstate T) (w w' : nat),
+  live s = lin w -> size_ok s -> op_ok zero one div s (Resize (lin w')).
+Proof. exact @resize_guard_linear_lemma. Qed.
+Print Assumptions resize_guard_linear.
+
+(* the tree without fixes/C19-resize-diagonal.patch: growing by two weights leaves a zero on the
+   diagonal (singular matrix); the repaired index arithmetic puts dval on both new entries *)
+Theorem resize_pinned_refuted :
+  let M := [:: [:: 5; 1; 1]; [:: 1; 5; 1]; [:: 1; 1; 5]]%N in
+  List.nth 3 (List.nth 3 (reinit_bandit_grads 0%N false (lin 2) (lin 4) 7%N M) [::]) 99%N = 0%N /\
+  List.nth 3 (List.nth 3 (reinit_bandit_grads 0%N true (lin 2) (lin 4) 7%N M) [::]) 99%N = 7%N /\
+  reinit_bandit_grads 0%N true (lin 2) (lin 4) 7%N M =
+    [:: [:: 5; 1; 0; 0; 1]; [:: 1; 5; 0; 0; 1]; [:: 0; 0; 7; 0; 0]; [:: 0; 0; 0; 7; 0]; [:: 1; 1; 0; 0; 5]]%N.
+Proof. exact resize_pinned_witness. Qed.
+Print Assumptions resize_pinned_refuted.
